@@ -36,6 +36,9 @@ pub enum OC {
   /// tolerance checker; the requirer observes nothing). Consistency must be decided against the stamp taken when the
   /// dependency was created, not against a later output that was merely found consistent.
   Near,
+  /// harness checker with a zero-sized stamp that nevertheless inspects the output: stamp = (), consistent iff the
+  /// output is not 2 (the requirer observes nothing). A unit stamp does not mean "always consistent".
+  UnitPred,
   /// pie's own `EqualsChecker`
   PieEquals,
   /// pie's own `AlwaysConsistent`
@@ -77,26 +80,27 @@ impl OC {
     match self {
       OC::Equals | OC::PieEquals | OC::Near => OStamp::Val(out),
       OC::IsZero => OStamp::Zero(out == 0),
-      OC::Always | OC::PieAlways => OStamp::Unit,
+      OC::Always | OC::PieAlways | OC::UnitPred => OStamp::Unit,
     }
   }
   pub fn observe(&self, out: u8) -> Option<u8> {
     match self {
       OC::Equals | OC::PieEquals => Some(out),
       OC::IsZero => Some((out != 0) as u8),
-      OC::Always | OC::PieAlways | OC::Near => None,
+      OC::Always | OC::PieAlways | OC::Near | OC::UnitPred => None,
     }
   }
   /// Reference relation: is an output `out` consistent with `stamp`?
   pub fn consistent(&self, out: u8, stamp: OStamp) -> bool {
     match (self, stamp) {
       (OC::Near, OStamp::Val(s)) => (out as i16 - s as i16).abs() <= 1,
+      (OC::UnitPred, OStamp::Unit) => out != 2,
       _ => self.stamp_of(out) == stamp,
     }
   }
   pub fn name(&self) -> &'static str {
     match self {
-      OC::Equals => "Equals", OC::IsZero => "IsZero", OC::Always => "Always", OC::Near => "Near",
+      OC::Equals => "Equals", OC::IsZero => "IsZero", OC::Always => "Always", OC::Near => "Near", OC::UnitPred => "UnitPred",
       OC::PieEquals => "PieEquals", OC::PieAlways => "PieAlways",
     }
   }
@@ -196,7 +200,7 @@ pub fn stmt_from_string(s: &str) -> Result<Stmt, String> {
     Ok(match a { "Exact" => RC::Exact, "Exists" => RC::Exists, "Always" => RC::Always, "Faulty" => RC::Faulty, o => return Err(format!("rc {}", o)) })
   };
   let oc = |a: &str| -> Result<OC, String> {
-    Ok(match a { "Equals" => OC::Equals, "IsZero" => OC::IsZero, "Always" => OC::Always, "Near" => OC::Near, "PieEquals" => OC::PieEquals, "PieAlways" => OC::PieAlways, o => return Err(format!("oc {}", o)) })
+    Ok(match a { "Equals" => OC::Equals, "IsZero" => OC::IsZero, "Always" => OC::Always, "Near" => OC::Near, "UnitPred" => OC::UnitPred, "PieEquals" => OC::PieEquals, "PieAlways" => OC::PieAlways, o => return Err(format!("oc {}", o)) })
   };
   let src = |a: &str| -> Result<Src, String> {
     Ok(match a { "Acc" => Src::Acc, "One" => Src::One, "Zero" => Src::Zero, o => return Err(format!("src {}", o)) })
